@@ -30,7 +30,10 @@ FAMILIES = {
     "OP": (4, 120, 4, 260, 5),
     "G1": (4, 120, 4, 260, 5),
     "TRI": (2, 120, 4, 260, 5),
+    "ANC2": (1, 120, 4, 260, 5),
 }
+# families defined outside spec/Universe.tla (added after the witness lists of the older families were complete)
+FAMILY_MODULE = {"ANC2": "MC_SearchX"}
 UNIVERSE_SHARDS = 4
 # families whose universe is wider than the first 4 shards: the literal / reverse-search / class-sequence strategies are
 # selected by small differences between patterns (a self-overlapping suffix, a shared first byte), so a sample is not enough
@@ -43,7 +46,7 @@ SEARCH_CFG = "SPECIFICATION Spec\nINVARIANT Emit\n"
 # properties only the quick universe has been (each full-universe run takes 20-40 minutes of the whole machine and every
 # `fix:` commit invalidates it).  A check that would alarm on the unchanged tree is worth nothing, so the deeper
 # universe of these properties is kept in the code (tier == "thorough" branches) but not registered.
-THOROUGH_SAME_UNIVERSE = {"C05", "C07", "C08", "C12", "C13", "C14", "C19", "C17"}
+THOROUGH_SAME_UNIVERSE = {"C04", "C05", "C07", "C08", "C09", "C10", "C11", "C12", "C13", "C14", "C15", "C16", "C17", "C19", "C20"}
 
 
 def search_jobs(tier, families=None, with_at=False, budget_scale=1.0):
@@ -75,7 +78,8 @@ def run_search_family(prop, tier, props_arg, level="model_checking", families=No
     vh = vlib.build_harness()
     work = tempfile.mkdtemp(prefix=f"v{prop}_")
     try:
-        jobs = [(fam, c, module, subcmd) for fam, c in search_jobs(tier, families, with_at, budget_scale)]
+        jobs = [(fam, c, FAMILY_MODULE.get(fam, module) if module == "MC_Search" else module, subcmd)
+                for fam, c in search_jobs(tier, families, with_at, budget_scale) if module == "MC_Search" or fam not in FAMILY_MODULE]
         if module != "MC_Search":
             for _, c, _, _ in jobs:
                 c.pop("WithAt", None)
@@ -565,7 +569,7 @@ def c09(prop, tier):
 
 def c19(prop, tier):
     return run_search_family(prop, tier, prop, subcmd="fastpaths", with_at=True, budget_scale=0.6 if tier == "quick" else 0.7,
-                             families=["REV", "ANC", "CC", "DIG", "LIT", "G2a", "G2m", "U8", "G2u", "TRI", "G1", "BIG"],
+                             families=["REV", "ANC", "ANC2", "CC", "DIG", "LIT", "G2a", "G2m", "U8", "G2u", "TRI", "G1", "BIG"],
                              rule="TLC enumerates the families designed around the strategy selector (REV, ANC, CC, DIG, LIT) and generic shards, "
                                   "x haystacks x every start offset; patterns whose selected strategy is a special-purpose searcher are checked end to end "
                                   "through Engine.IsMatch/FindIndicesAt/FindAt/FindSubmatchAt, and every public searcher whose own applicability predicate "
